@@ -83,6 +83,10 @@ func (c14) Run(c *fw.Case) {
 		c14{}.numberHistory(c)
 		return
 	}
+	if c.Idx%40 == 27 {
+		c14{}.mirroredDocument(c)
+		return
+	}
 	var s *jsonschema.Schema
 	var docText string
 	var dynInsts []any
@@ -576,4 +580,94 @@ func (c14) numberHistory(c *fw.Case) {
 	}
 	c.Nontrivial("numberHistory|" + lit + "|" + mult)
 	c.Digest(fmt.Sprint(first))
+}
+
+// mirroredDocument: a Loader with a content-addressed cache hands out ONE *Schema for a document that is published under
+// two URIs (a mirror). The document has no $id and refers to a neighbour by a relative reference, and the neighbours of
+// the two locations differ. Whatever the package makes of that, it must make the same of it on every Resolve call and in
+// every process: the verdict vector is compared across eight Resolve calls here and, through the digest, across processes.
+func (c14) mirroredDocument(c *fw.Case) {
+	r := c.R
+	types := gen.TypeNames
+	t1 := gen.Pick(r, types)
+	t2 := gen.Pick(r, types)
+	for t2 == t1 {
+		t2 = gen.Pick(r, types)
+	}
+	n := 2 + r.IntN(4) // mirrors
+	shared := &jsonschema.Schema{}
+	if err := json.Unmarshal([]byte(`{"$ref":"b.json"}`), shared); err != nil {
+		return
+	}
+	docs := map[string]string{}
+	props := map[string]any{}
+	for i := 0; i < n; i++ {
+		t := t1
+		if i%2 == 1 {
+			t = t2
+		}
+		docs[fmt.Sprintf("http://x.test/d%d/b.json", i)] = `{"type":"` + t + `"}`
+		props[fmt.Sprintf("p%d", i)] = map[string]any{"$ref": fmt.Sprintf("http://x.test/d%d/a.json", i)}
+	}
+	rootText := gen.Text(map[string]any{"properties": props})
+	loader := func(u *url.URL) (*jsonschema.Schema, error) {
+		if strings.HasSuffix(u.Path, "/a.json") {
+			return shared, nil // the same object, whichever mirror is asked for
+		}
+		text, ok := docs[u.String()]
+		if !ok {
+			return nil, fmt.Errorf("no such document %s", u)
+		}
+		var s jsonschema.Schema
+		if err := json.Unmarshal([]byte(text), &s); err != nil {
+			return nil, err
+		}
+		return &s, nil
+	}
+	var insts []string
+	for i := 0; i < n; i++ {
+		for _, v := range []string{`"s"`, `1`, `null`, `[]`, `{}`, `true`, `1.5`} {
+			insts = append(insts, fmt.Sprintf(`{"p%d":%s}`, i, v))
+		}
+	}
+	var first string
+	for k := 0; k < 8; k++ {
+		var root jsonschema.Schema
+		if err := json.Unmarshal([]byte(rootText), &root); err != nil {
+			return
+		}
+		var rs *jsonschema.Resolved
+		var err error
+		if !c.CallChecked("Resolve", map[string]any{"schema": json.RawMessage(rootText), "note": "mirrored Loader document"}, func() {
+			rs, err = root.Resolve(&jsonschema.ResolveOptions{BaseURI: "http://x.test/root.json", Loader: loader})
+		}) {
+			return
+		}
+		c.Eval(1)
+		out := "resolve-error"
+		if err == nil {
+			var sb strings.Builder
+			for _, it := range insts {
+				v, ok := validate(c, rs, rootText, gen.Canonical(it), it)
+				if !ok {
+					return
+				}
+				if v {
+					sb.WriteByte('1')
+				} else {
+					sb.WriteByte('0')
+				}
+			}
+			out = sb.String()
+		}
+		if k == 0 {
+			first = out
+		} else if out != first {
+			c.Violation(fmt.Sprintf("Resolve call %d of the same root with the same Loader gives other verdicts than call 1 (%s vs %s)", k+1, out, first),
+				map[string]any{"schema": json.RawMessage(rootText), "loader": "one *Schema {\"$ref\":\"b.json\"} served for every .../a.json; .../dK/b.json differ", "documents": docs})
+			return
+		}
+	}
+	c.Digest(first)
+	c.Nontrivial(fmt.Sprintf("mirrored|%d", n))
 }
